@@ -15,6 +15,8 @@ def engine_prop(test, quick=800, thorough=60000):
 PROPS = {
     "C04": engine_prop("TestC04"),
     "C05": engine_prop("TestC05"),
+    "C06": engine_prop("TestC06"),
+    "C09": engine_prop("TestC09"),
     "C01": {
         "level": "exploration",
         "assumptions": ENGINE_ASSUMPTIONS,
